@@ -717,8 +717,8 @@ func (fv *FuncVC) frameObligations(st *State, where string) {
 			continue
 		}
 		conds := []string{sx("select", allocEntry, "r")}
-		if strings.HasPrefix(h, "G$") || strings.HasPrefix(h, "Held$") {
-			conds = nil // ghost state is not allocated: every entry counts
+		if h == "G$runs" || h == "G$lasterr" {
+			conds = nil // ghost counters keyed by command lines, not by allocated objects: every entry counts
 		}
 		for _, r := range byHeap[h] {
 			conds = append(conds, mkNot(mkEq("r", r)))
